@@ -3,6 +3,7 @@
 use std::sync::Arc;
 
 use dashmap::DashMap;
+use dashmap::mapref::entry::Entry as MapEntry;
 
 use narwhal_util::pool::PoolBuffer;
 use narwhal_util::string_atom::StringAtom;
@@ -152,14 +153,24 @@ impl Router {
     F: FnOnce() -> Fut,
     Fut: std::future::Future<Output = Result<(), E>>,
   {
-    self.connections.entry(username.clone()).and_modify(|entries| {
-      entries.retain(|entry| entry.handler != handler);
-    });
+    // Drop the connection and, if it was the last one, the whole entry in a single critical section:
+    // an IDENTIFY for the same name in between must either see the old holder or a free name whose
+    // clean-up is guaranteed to run.
+    let was_removed = match self.connections.entry(username.clone()) {
+      MapEntry::Occupied(mut occupied) => {
+        occupied.get_mut().retain(|entry| entry.handler != handler);
 
-    // Remove the entry if it's empty
-    let was_removed = self.connections.remove_if(username, |_, entries| entries.is_empty());
+        if occupied.get().is_empty() {
+          occupied.remove();
+          true
+        } else {
+          false
+        }
+      },
+      MapEntry::Vacant(_) => false,
+    };
 
-    if was_removed.is_some() { cleanup().await } else { Ok(()) }
+    if was_removed { cleanup().await } else { Ok(()) }
   }
 
   /// Checks if there are any connections registered for a given username.
